@@ -3,7 +3,7 @@ package main
 func init() {
 	register(prop{
 		ID: "C07", Pkg: "c07",
-		Rule:        "TestC07_Matrix enumerates requested version (default, 5 supported, unknown older/newer, garbage, 2026-07-27) x link (in-memory and io pipe each with all/legacy/legacy-old/none advertised subsets, SSE, streamable stateful and stateless x JSON x event store, stateful with GetSessionID returning \"\") x earlier session on the same Server (none, one over an in-memory link, one over a stateful HTTP link) = 660 cells; TestC07_Sample re-samples the matrix with rapid adding free dimensions (0-2 earlier sessions of the same Server over arbitrary links and versions, left open or closed, list-changed handler => subscriptions/listen on connect, keep-alive, tools capability without listChanged, DisableStandaloneSSE, tool argument, extra tools). TestC07_Raw drives each SDK side alone with arbitrary version strings on the wire (raw client -> server initialize; scripted server answering the SDK client) and requires that only supported versions are ever settled on. Non-trivial = negotiated != requested, or the discover->initialize fallback happened; distinct by (requested, link).",
+		Rule:        "TestC07_Matrix enumerates requested version (default, 5 supported, unknown older/newer, garbage, 2026-07-27) x link (in-memory and io pipe each with all/legacy/legacy-old/none advertised subsets, SSE, streamable stateful and stateless x JSON x event store, stateful with GetSessionID returning \"\") x earlier session on the same Server (none, one over an in-memory link, one over a stateful HTTP link) = 660 cells; TestC07_Sample re-samples the matrix with rapid adding free dimensions (0-2 earlier sessions of the same Server over arbitrary links and versions, left open or closed, list-changed handler => subscriptions/listen on connect, keep-alive, tools capability without listChanged, DisableStandaloneSSE, tool argument, extra tools). TestC07_Raw drives each SDK side alone with arbitrary version strings on the wire (raw client -> server initialize; scripted server answering the SDK client) and requires that only supported versions are ever settled on. TestC07_HTTPDiscover puts the SDK client's streamable HTTP transport in front of a scripted endpoint that refuses the server/discover POST at the HTTP level (16 statuses x plain/empty/html/JSON-RPC-error bodies) and serves the initialize handshake: the client must fall back, negotiate the answered version and list and call at once. Non-trivial = negotiated != requested, or the discover->initialize fallback happened; distinct by (requested, link).",
 		Assumptions: []string{"real Client and Server ends over in-memory links (memio/memhttp) in a synctest bubble", "for custom ProtocolVersionSupporter subsets only the modern/legacy split is asserted: its documented contract is to filter server/discover", "teardown leftovers are counted (class teardown_leftover), not judged: that is C05"},
 		LevelText:   "Exhaustive enumeration of the configuration matrix plus random re-sampling with free dimensions; oracle = negotiated version supported by SDK and transport, equals requested when mutually supported, fallback used exactly when discovery cannot yield a modern version, ListTools/CallTool succeed right after Connect.",
 		LevelNote:   "Trusts the harness' transcription of the SDK's version list and transport rules (wire.Config.TransportSupports) and the server-side middleware that records which handshake was used.",
@@ -14,6 +14,7 @@ func init() {
 			{Test: "TestC07_Matrix"},
 			{Test: "TestC07_Sample", Quick: 400, Thorough: 40000},
 			{Test: "TestC07_Raw", Quick: 1500, Thorough: 200000, Shards: 4},
+			{Test: "TestC07_HTTPDiscover", Quick: 1500, Thorough: 100000, Shards: 4},
 		},
 	})
 }
